@@ -31,7 +31,7 @@ LEVEL = 'exploration'
 QUICK_RUNS = 60000
 QUICK_BUDGET_S = 60
 THOROUGH_BUDGET_S = 600
-RULE = ('authentication line sequences over a 24-symbol alphabet (all sequences of length '
+RULE = ('authentication line sequences over a 29-symbol alphabet (all sequences of length '
         '<= 3 over 9 symbols x 3 mechanism-outcome scripts as a sweep; random ones of up to '
         '40 lines crossing the rejection limit) x mechanism outcome scripts (scripted '
         'mechanism: accept/challenge/reject; real mechanisms with credentials present/absent '
@@ -86,6 +86,11 @@ ALPHABET = [
     b'ERROR "client error"',                   # 21
     b'AUTH DBUS_COOKIE_SHA1',                  # 22 no user
     b'AUTH ANONYMOUS ' + h(b'trace'),          # 23
+    b'AUTH anonymous',                         # 24 mechanism names are case sensitive: not offered
+    b'auth ANONYMOUS',                         # 25 unknown command
+    b'AUTH  ANONYMOUS',                        # 26 two blanks before the mechanism name
+    b'AUTH\tANONYMOUS',                        # 27 a tab is not a separator: unknown command
+    b'DATA ' + h(b'a b  c'),                   # 28
 ]
 SWEEP_SYMS = [1, 10, 3, 4, 5, 6, 7, 13, 16]
 
@@ -511,7 +516,8 @@ def scenario(ctx):
         nul = True
     else:
         n = 1 + ds.choose(40 if ds.flag(0.3) else 10)
-        w = [1, 4, 3, 4, 3, 3, 3, 1, 3, 2, 5, 2, 1, 2, 2, 1, 1, 1, 0.5, 1, 0.5, 1, 1, 1]
+        w = [1, 4, 3, 4, 3, 3, 3, 1, 3, 2, 5, 2, 1, 2, 2, 1, 1, 1, 0.5, 1, 0.5, 1, 1, 1, 0.7, 0.7, 0.7,
+             0.5, 0.7]
         if cfg == 'scripted':
             w[1] = w[2] = w[8] = w[9] = 0.3
         else:
